@@ -164,6 +164,11 @@ pub fn run(rep: &mut Report, backend: Bk, thorough: bool) {
         let c = step(&w, z, Action::Deliver(commit_i)).client;
         states.push(("next-epoch", c));
     }
+    if backend == Bk::Sqlite {
+        // the commit applied, then the process restarted: what decides about competitors is rebuilt from storage
+        let c = step(&w, z, Action::Deliver(commit_i)).client.restart();
+        states.push(("next-epoch-restarted", c));
+    }
 
     // mutation families per valid event kind
     let step_outer = if thorough { 1 } else { 23 };
@@ -175,6 +180,8 @@ pub fn run(rep: &mut Report, backend: Bk, thorough: bool) {
     let mut muts: Vec<(String, String, Event)> = Vec::new();
     for (kname, i, sender) in &kinds {
         let ev = &w.pool[*i].event;
+        // the valid event itself: wherever it is refused (already handled, wrong epoch, evicted) nothing changes either
+        muts.push((kname.to_string(), "unmodified".into(), ev.clone()));
         for (label, e) in outer_mutations(ev, foreign_h, step_outer) {
             muts.push((kname.to_string(), label, e));
         }
